@@ -288,6 +288,14 @@ class Ownership:
             if e.kind in ("call", "new"):
                 self._apply_callee(s, l, e, params, qual)
                 continue
+            if e.kind == "store_attr" and isinstance(e.value, (SObj, SList, SDict, SOpaque)) and owner(e.target) == "BORROWED" \
+                    and owner(e.value) != "OWNED" and root_of(e.target, params) is not None and str(e.key) == "data":
+                # the storage of a pre-existing container is replaced by a list this function does not own (an argument's, or a
+                # callee's result that may be one): two containers share one list from here on
+                lst_ = s.__dict__.setdefault("adopts", [])
+                st_ = Site(qual, e.node, f"store_attr {e.key}", short(e.value), root_of(e.target, params))
+                if not any(x.text() == st_.text() for x in lst_):
+                    lst_.append(st_)
             if e.kind not in MUT_KINDS:
                 continue
             if e.kind == "basecall":
